@@ -35,6 +35,11 @@ AllObs == {"tracker:port", "tracker:noport", "webseed",
            "peer:version", "peer:port", "peer:dhtport", "peer:ipv6",
            "incoming:accepted", "incoming:refused"}
 
+\* PxOk = FALSE: the proxy string of the proxied torrent cannot be used (it does not parse as a URL, or names a scheme no
+\* dialer exists for).  storrent accepts any string as a proxy; what would go through the proxy then fails, and nothing
+\* goes out directly instead.
+CONSTANT PxOk
+
 VARIABLES started, proxy, kind, conf, due, wanted, peer, out, last
 vars == <<started, proxy, kind, conf, due, wanted, peer, out, last>>
 \* peer: a remote peer that has some of the pieces is connected and stays (it never unchokes us).  With a peer present
@@ -51,7 +56,8 @@ DhtBoth(c, px) == DhtOut(c, px, "dht4") \cup DhtOut(c, px, "dht6")
 \* what the first web-seed opportunity lets out
 WsOut(c, w) == IF c.ws /\ w THEN {"webseed"} ELSE {}
 
-Init == /\ started = FALSE /\ proxy \in BOOLEAN /\ kind \in Kinds /\ conf \in Confs   \* conf: the global defaults
+Usable == ~proxy \/ PxOk
+Init == /\ started = FALSE /\ proxy \in (IF PxOk THEN BOOLEAN ELSE {TRUE}) /\ kind \in Kinds /\ conf \in Confs   \* conf: the global defaults
         /\ due = TRUE /\ wanted = FALSE /\ peer = FALSE /\ out = {} /\ last = [a |-> "init"]
 
 Start == /\ ~started /\ started' = TRUE
@@ -60,8 +66,8 @@ Start == /\ ~started /\ started' = TRUE
          /\ UNCHANGED <<proxy, kind, conf, due, wanted, peer>>
 
 SetConf(c) == /\ started /\ conf' = c
-              /\ out' = (IF Rank(conf.dht) < Rank(c.dht) THEN DhtBoth(c, proxy) ELSE {}) \cup WsOut(c, wanted)
-              /\ wanted' = (wanted /\ ~c.ws)
+              /\ out' = (IF Rank(conf.dht) < Rank(c.dht) THEN DhtBoth(c, proxy) ELSE {}) \cup (IF Usable THEN WsOut(c, wanted) ELSE {})
+              /\ wanted' = (IF Usable THEN wanted /\ ~c.ws ELSE wanted)
               /\ last' = [a |-> "SetConf", c |-> c]
               /\ UNCHANGED <<started, proxy, kind, due, peer>>
 
@@ -74,14 +80,14 @@ TrackerDue == /\ started /\ ~due /\ due' = TRUE /\ out' = {} /\ last' = [a |-> "
 
 Tick == /\ started
         /\ IF conf.trk /\ due
-           THEN out' = (IF proxy THEN (IF kind = "udp" THEN {} ELSE {"tracker:noport"}) ELSE {"tracker:port"}) /\ due' = FALSE
+           THEN out' = (IF proxy THEN (IF kind = "udp" \/ ~PxOk THEN {} ELSE {"tracker:noport"}) ELSE {"tracker:port"}) /\ due' = FALSE
            ELSE out' = {} /\ due' = due
         /\ last' = [a |-> "Tick"]
         /\ UNCHANGED <<started, proxy, kind, conf, wanted, peer>>
 
 Want == /\ started
-        /\ out' = WsOut(conf, TRUE)
-        /\ wanted' = ~conf.ws
+        /\ out' = (IF Usable THEN WsOut(conf, TRUE) ELSE {})
+        /\ wanted' = (IF Usable THEN ~conf.ws ELSE TRUE)
         /\ last' = [a |-> "Want"]
         /\ UNCHANGED <<started, proxy, kind, conf, due, peer>>
 
@@ -126,7 +132,10 @@ TypeOK == /\ peer \in BOOLEAN /\ started \in BOOLEAN /\ proxy \in BOOLEAN /\ kin
           /\ out \subseteq AllObs
 PrivacyInv == out \cap Forbidden(conf, proxy) = {}
 \* a wanted piece stays outstanding only while web seeds are off (no starvation once they are on)
-WantedOnlyWhenOff == wanted => ~conf.ws
+WantedOnlyWhenOff == Usable => (wanted => ~conf.ws)
+\* with an unusable proxy nothing of the torrent reaches a tracker, a web seed or a peer; the DHT (which does not go
+\* through the proxy, and is told no port) is all that is left
+NothingPastBadProxy == ~Usable => out \subseteq {"dht4:noport", "dht6:noport", "incoming:refused"}
 \* the proxy flag never changes
 ProxyFixed == [][proxy' = proxy /\ kind' = kind]_vars
 =============================================================================
